@@ -37,7 +37,16 @@ def failed_cleanly(res):
 def termination_findings(res):
     o = res["outcome"]
     if o["kind"] == "deadlock":
-        return [Finding("C07", "deadlock", "", "no thread can run: %s" % o.get("threads"))]
+        cls = "deadlock"
+        if ":never" in str(o.get("threads")):
+            # a thread sits in an open(2) of a FIFO without a peer: blocks forever in a real kernel
+            cls += ":fifo-open"
+            ev = next((e for e in res.get("events", []) if e.get("f") == "fifo-open"), None)
+            if ev is not None:
+                obj = ev.get("o")
+                pre_src = any(x.get("o") == obj and x["k"] == "p" and not x["p"].startswith("dst") for x in res.get("pre", []))
+                cls += ":source" if pre_src else ":dest"
+        return [Finding("C07", cls, "", "no thread can run: %s" % o.get("threads"))]
     if o["kind"] == "budget":
         return [Finding("C07", "step-budget", "", "run exceeded its step budget (%s steps)" % res["stats"]["steps"])]
     if o["kind"] == "spin":
